@@ -180,7 +180,10 @@ def entries_forward(ctx, R, rule):
         e1, e2, s = R.xspace_entry(), R.rng_entry(), R.sample()
     except RoleLost as ex:
         return ctx.lost(rule, str(ex))
-    for entry, target in ((e1, s), (e2, e1)):
+    from ..roles import returns_unchanged
+    # the random-number entry either calls the x-space entry or, like it, the sampling routine itself (a shared delegate / after inlining)
+    e2_target = e1 if any(cb is e1 for _bi, _t, cb in R.local_callees(e2)) else s
+    for entry, target in ((e1, s), (e2, e2_target)):
         ctx.fn(entry.path)
         v = Vals(entry)
         sarg = settings_arg(ctx.facts, entry)
@@ -196,7 +199,7 @@ def entries_forward(ctx, R, rule):
         ctx.ob(rule, "%s passes its own settings parameter on" % norm_path(entry.path),
                r is not None and r.kind == "arg" and r.base[1] == sarg and not r.path, entry.path, "forward-settings",
                where=pat.where(t), detail="argument is %r" % (r,))
-        direct = t["dest"]["l"] == 0 and not t["dest"]["p"]
+        direct = returns_unchanged(entry, t)
         ctx.ob(rule, "%s returns the callee's Result unchanged" % norm_path(entry.path), direct, entry.path,
                "return-callee-result", where=pat.where(t))
 
